@@ -90,7 +90,7 @@ def run_one(item, t, budget, seed, known):
             raise
         return label, {"compile_error": str(e), "kind": kind, "compiler": compiler}
     args = ["--seed", str(seed), "--tier", t, "--known", ";".join(known)]
-    n = int((300000 if t == "quick" else 3000000) * budget)
+    n = int((600000 if t == "quick" else 3000000) * budget)
     # malloc_context_size: ASan's stack depot otherwise grows by ~1 KB per rapidcheck case (2.5 GB per process in the thorough tier)
     env = {"RC_PARAMS": "seed=%d max_success=%d max_size=100" % (seed, max(n, 100)),
            "ASAN_OPTIONS": "detect_leaks=0:quarantine_size_mb=32:malloc_context_size=2"}
